@@ -1,5 +1,6 @@
 import Crusta.Model.Readers
 import Crusta.Proofs.RoundTrip
+import Crusta.Proofs.ReaderWF
 
 /-!
 # C13 — instance readers are total and faithful (property theorems)
@@ -180,5 +181,11 @@ theorem apx_wellformed_accepted (labels : List Str) (atts : List (Nat × Nat))
     (ha : ∀ p ∈ atts, p.1 < labels.length ∧ p.2 < labels.length) (hand : atts.Nodup) :
     readApx (encodeUtf8 (writeApx labels (atts.map (fun p => (labels.getD p.1 [], labels.getD p.2 [])))))
       = .ok ⟨labels, atts⟩ := apx_write_read labels atts hv hnd ha hand
+
+/-- **only well-formed frameworks are accepted** (ICCMA'23): whatever the bytes, if the reader
+returns a framework then every attack it holds is between declared arguments — together with the
+rejection theorems above and `iccma_wellformed_accepted(_general)` this is "accepts exactly" -/
+theorem iccma_accepted_is_wellformed (bs : List UInt8) (fw : IccmaFw) (h : readIccma bs = .ok fw) :
+    ∀ p ∈ fw.atts, p.1 < fw.n ∧ p.2 < fw.n := readIccma_wfa bs fw h
 
 end Crusta.C13
